@@ -14,7 +14,8 @@ func init() { register("C14", "exploration", checkC14) }
 
 const ggMod = "zqgg.example.com/m"
 
-var ggPkgs = []string{"zqpkga", "zqpkgb", "zqpkgc", "zqpkgd"} // + cmd/zqapp (main)
+// zqpkgax: its path has zqpkga's path as a *string* prefix without being below it.
+var ggPkgs = []string{"zqpkga", "zqpkgb", "zqpkgc", "zqpkgd", "zqpkgax"} // + cmd/zqapp (main)
 
 type ggMarker struct {
 	Name, Class, Pkg string // Pkg = short name (zqpkga.. / main)
@@ -40,7 +41,7 @@ func genGGProg(r *rand.Rand) (*Prog, []ggMarker) {
 		pks[short] = p
 		return p
 	}
-	deps := map[string][]string{"zqpkga": nil, "zqpkgb": {"zqpkga"}, "zqpkgc": {"zqpkgb"}, "zqpkgd": {"zqpkga"}}
+	deps := map[string][]string{"zqpkga": nil, "zqpkgb": {"zqpkga"}, "zqpkgc": {"zqpkgb"}, "zqpkgd": {"zqpkga"}, "zqpkgax": nil}
 	for _, short := range ggPkgs {
 		p := mk(short)
 		var imp, use strings.Builder
@@ -138,6 +139,9 @@ func ggCases(quick bool) []ggCase {
 		{Name: "only-main", Pattern: exact("cmd/zqapp"), Matched: []string{"cmd/zqapp"}},
 		{Name: "a+d+main", Pattern: exact("zqpkga", "zqpkgd", "cmd/zqapp"), Matched: []string{"zqpkga", "zqpkgd", "cmd/zqapp"}},
 		{Name: "glob-ab", Pattern: ggMod + "/zqpkg[ab]", Matched: []string{"zqpkga", "zqpkgb"}},
+		{Name: "siblings-ax+a", Pattern: exact("zqpkgax", "zqpkga"), Matched: []string{"zqpkga", "zqpkgax"}},
+		{Name: "siblings-a+ax+b", Pattern: exact("zqpkga", "zqpkgax", "zqpkgb"), Matched: []string{"zqpkga", "zqpkgax", "zqpkgb"}, Literals: true},
+		{Name: "only-ax", Pattern: exact("zqpkgax"), Matched: []string{"zqpkgax"}},
 		{Name: "std+c", Pattern: "strings," + exact("zqpkgc"), Matched: []string{"zqpkgc"}, Literals: true},
 		{Name: "module-prefix", Pattern: ggMod, Matched: all},
 		{Name: "star", Pattern: "*", Matched: all},
@@ -148,7 +152,7 @@ func ggCases(quick bool) []ggCase {
 		return cs
 	}
 	// thorough: every subset of the four libraries, with and without main.
-	for mask := 0; mask < 16; mask++ {
+	for mask := 0; mask < 1<<len(ggPkgs); mask++ {
 		for _, withMain := range []bool{false, true} {
 			var m []string
 			for i, p := range ggPkgs {
